@@ -236,6 +236,12 @@ struct FragReader<'a> {
     seed: u64,
     maxfrag: usize,
     bad: bool,
+    /// explicit fragment boundaries (absolute positions); when non-empty they replace the generator
+    cuts: Vec<usize>,
+    /// one-shot fault: the `fail_at`-th call of `fill_buf`/`read` fails once (0 = never)
+    fail_at: usize,
+    calls: usize,
+    fired: bool,
 }
 
 impl<'a> FragReader<'a> {
@@ -247,12 +253,30 @@ impl<'a> FragReader<'a> {
             seed,
             maxfrag,
             bad,
+            cuts: Vec::new(),
+            fail_at: 0,
+            calls: 0,
+            fired: false,
         }
+    }
+    fn with_cuts(data: &'a [u8], cuts: Vec<usize>) -> Self {
+        let mut f = FragReader::new(data, 0, 0, false);
+        f.cuts = cuts;
+        f
     }
     fn next_frag(&mut self) {
         if self.pos >= self.frag_end {
             let rest = self.data.len() - self.pos;
-            let n = if self.maxfrag == 0 {
+            let n = if !self.cuts.is_empty() {
+                let pos = self.pos;
+                self.cuts
+                    .iter()
+                    .copied()
+                    .filter(|c| *c > pos)
+                    .min()
+                    .map(|c| c - pos)
+                    .unwrap_or(rest)
+            } else if self.maxfrag == 0 {
                 rest
             } else {
                 self.seed = self
@@ -284,6 +308,11 @@ impl<'a> Read for FragReader<'a> {
 
 impl<'a> BufRead for FragReader<'a> {
     fn fill_buf(&mut self) -> io::Result<&[u8]> {
+        self.calls += 1;
+        if self.fail_at != 0 && self.calls == self.fail_at {
+            self.fired = true;
+            return Err(io::Error::new(io::ErrorKind::Other, "one-shot source fault"));
+        }
         self.next_frag();
         if self.pos >= self.data.len() && self.bad {
             return Err(io::Error::new(io::ErrorKind::Other, "source fault"));
@@ -295,7 +324,7 @@ impl<'a> BufRead for FragReader<'a> {
     }
 }
 
-/// reader kind: `flat` (default), `cur`, `buf:<cap>`, `frag:<seed>:<max>`
+/// reader kind: `flat` (default), `cur`, `buf:<cap>`, `frag:<seed>:<max>`, `cut:<p1>,<p2>,…`
 enum AnyReader<'a> {
     Flat(&'a [u8], usize),
     Cur(io::Cursor<&'a [u8]>),
@@ -304,6 +333,24 @@ enum AnyReader<'a> {
 }
 
 impl<'a> AnyReader<'a> {
+    fn with_fault(data: &'a [u8], rk: &str, fail_at: usize) -> Self {
+        let mut r = AnyReader::new(data, rk, false);
+        if fail_at != 0 {
+            if !matches!(r, AnyReader::Frag(_)) {
+                r = AnyReader::Frag(FragReader::new(data, 0, 0, false));
+            }
+            if let AnyReader::Frag(f) = &mut r {
+                f.fail_at = fail_at;
+            }
+        }
+        r
+    }
+    fn fired(&self) -> bool {
+        match self {
+            AnyReader::Frag(f) => f.fired,
+            _ => false,
+        }
+    }
     fn new(data: &'a [u8], rk: &str, bad: bool) -> Self {
         let parts: Vec<&str> = rk.split(':').collect();
         if bad {
@@ -324,6 +371,10 @@ impl<'a> AnyReader<'a> {
                 s.parse().unwrap_or(1),
                 m.parse().unwrap_or(4),
                 false,
+            )),
+            ["cut", c] => AnyReader::Frag(FragReader::with_cuts(
+                data,
+                c.split(',').filter_map(|x| x.parse().ok()).collect(),
             )),
             _ => AnyReader::Flat(data, data.len()),
         }
@@ -374,11 +425,19 @@ struct ScriptedRead<'a> {
     pos: usize,
     frags: std::collections::VecDeque<usize>,
     bad: bool,
+    fail_at: usize,
+    calls: usize,
+    fired: bool,
 }
 impl<'a> Read for ScriptedRead<'a> {
     fn read(&mut self, buf: &mut [u8]) -> io::Result<usize> {
         if buf.is_empty() {
             return Ok(0);
+        }
+        self.calls += 1;
+        if self.fail_at != 0 && self.calls == self.fail_at {
+            self.fired = true;
+            return Err(io::Error::new(io::ErrorKind::Other, "one-shot source fault"));
         }
         let rest = self.data.len() - self.pos;
         if rest == 0 {
@@ -399,6 +458,11 @@ impl<'a> Read for ScriptedRead<'a> {
 }
 impl<'a> BufRead for ScriptedRead<'a> {
     fn fill_buf(&mut self) -> io::Result<&[u8]> {
+        self.calls += 1;
+        if self.fail_at != 0 && self.calls == self.fail_at {
+            self.fired = true;
+            return Err(io::Error::new(io::ErrorKind::Other, "one-shot source fault"));
+        }
         if self.pos >= self.data.len() && self.bad {
             return Err(io::Error::new(io::ErrorKind::Other, "source fault"));
         }
@@ -435,7 +499,12 @@ fn verdict<T, E>(r: &Result<Result<T, E>, Box<dyn std::any::Any + Send>>) -> &'s
 fn run_oneshot(op: &str, f: &Fields) -> String {
     let data = unhex(get(f, "in"));
     let sink = Sink::parse(get(f, "sink"));
-    let mut rd = AnyReader::new(&data, get(f, "rk"), get(f, "rbad") == "1");
+    let rfail: usize = get(f, "rfail").parse().unwrap_or(0);
+    let mut rd = if rfail != 0 {
+        AnyReader::with_fault(&data, get(f, "rk"), rfail)
+    } else {
+        AnyReader::new(&data, get(f, "rk"), get(f, "rbad") == "1")
+    };
     let opts = parse_options(f);
     let r = catch_unwind(AssertUnwindSafe(|| {
         let mut s = sink.clone();
@@ -449,11 +518,14 @@ fn run_oneshot(op: &str, f: &Fields) -> String {
         Ok(Ok(_)) => format!("{}", rd.used()),
         _ => "-".to_string(),
     };
-    let extra = if get(f, "pos") == "1" {
+    let mut extra = if get(f, "pos") == "1" {
         format!(" pos={}", rd.used())
     } else {
         String::new()
     };
+    if rfail != 0 {
+        extra.push_str(if rd.fired() { " rf=1" } else { " rf=0" });
+    }
     format!(
         "{} used={} {}{}",
         verdict(&r),
@@ -483,10 +555,8 @@ fn run_rawlzma(f: &Fields) -> String {
         let parts: Vec<&str> = op.split(':').collect();
         match parts.as_slice() {
             ["d", h] => {
-                if dirty {
-                    outs.push("unspec".into());
-                    continue;
-                }
+                // a decode after a failed one without reset is executed too (the model leaves its
+                // result unspecified, the safety oracles do not)
                 let data = unhex(h);
                 let mut rd = AnyReader::new(&data, get(f, "rk"), false);
                 let mut out = Vec::new();
@@ -540,10 +610,8 @@ fn run_rawlzma2(f: &Fields) -> String {
         let parts: Vec<&str> = op.split(':').collect();
         match parts.as_slice() {
             ["d", h] => {
-                if dirty {
-                    outs.push("unspec".into());
-                    continue;
-                }
+                // a decode after a failed one without reset is executed too (the model leaves its
+                // result unspecified, the safety oracles do not)
                 let data = unhex(h);
                 let mut rd = AnyReader::new(&data, get(f, "rk"), false);
                 let mut out = Vec::new();
@@ -630,6 +698,20 @@ fn run_stream(f: &Fields) -> String {
                 match res {
                     None => outs.push(format!("wa{}@{}", acc, sink.len())),
                     Some(v) => outs.push(format!("wa{}@{}", v, sink.len())),
+                }
+            }
+            ["wx", h] => {
+                // the trait's own write_all (std's default loop unless the crate overrides it)
+                let data = unhex(h);
+                let s = match st.as_mut() {
+                    Some(s) => s,
+                    None => break,
+                };
+                let r = catch_unwind(AssertUnwindSafe(|| s.write_all(&data)));
+                match r {
+                    Ok(Ok(())) => outs.push(format!("wxok@{}", sink.len())),
+                    Ok(Err(_)) => outs.push(format!("wxerr@{}", sink.len())),
+                    Err(_) => outs.push(format!("wxpanic@{}", sink.len())),
                 }
             }
             ["f"] => {
@@ -782,6 +864,9 @@ fn run_enc(f: &Fields) -> String {
         pos: 0,
         frags,
         bad: get(f, "rbad") == "1",
+        fail_at: get(f, "rfail").parse().unwrap_or(0),
+        calls: 0,
+        fired: false,
     };
     let o = get(f, "opt");
     let opt = if o == "skip" {
@@ -805,11 +890,21 @@ fn run_enc(f: &Fields) -> String {
         }
     }));
     let w = sink.0.borrow().writes;
+    let rf = if rd.fail_at != 0 {
+        if rd.fired {
+            " rf=1"
+        } else {
+            " rf=0"
+        }
+    } else {
+        ""
+    };
     format!(
-        "{} {} w={}",
+        "{} {} w={}{}",
         verdict(&r),
         sink.repr_full(get(f, "full") == "1"),
-        w
+        w,
+        rf
     )
 }
 
